@@ -24,8 +24,8 @@ Local Open Scope Z_scope.
     on any store (APPEND, COPY, UID COPY, STORE incl. the Junk move, EXPUNGE,
     CLOSE, CREATE, DELETE, RENAME incl. RENAME INBOX; inside or outside C03's
     finding classes) and earlier LMTP transactions — for every folder,
-    recipient list, message and clock: outside the two finding classes the
-    property holds. *)
+    recipient list, message and clock: outside the one remaining (latent) class
+    the property holds. *)
 Theorem c01_accept_iff_visible : forall roles h folder rs p clk,
   classify (wrun h (w0 roles)) folder rs p clk = None ->
   spec_C01 (wrun h (w0 roles)) folder rs p clk.
@@ -43,8 +43,8 @@ Theorem c01_invariant_every_history : forall roles h, WInv (wrun h (w0 roles)).
 Proof. intros roles h. apply wrun_WInv, WInv_w0. Qed.
 Print Assumptions c01_invariant_every_history.
 
-(** a position answered 4xx/5xx adds nothing, also inside class CNoBoundary
-    (only a reply taken from another attempt can break it) *)
+(** a position answered 4xx/5xx adds nothing unless its reply is taken from
+    another attempt (stated on the attempts, without the classifier) *)
 Theorem c01_reject_adds_nothing : forall w folder rs p clk,
   WInv w ->
   let '(w', replies, atts) := lmtp_data w folder rs p clk in
@@ -79,10 +79,10 @@ Theorem c01_dup_class_needs_stale : forall w folder rs p clk,
 Proof. exact c01_dup_class_needs_stale_l. Qed.
 Print Assumptions c01_dup_class_needs_stale.
 
-(** C01 on worlds with truthful UIDNEXT: the missing boundary is the only class *)
+(** C01 on worlds with truthful UIDNEXT holds without any exclusion, for every
+    message shape (a root multipart/* without boundary included, raven f7e0490) *)
 Theorem c01_holds_when_fresh : forall w folder rs p clk,
-  WInv w -> WFresh w -> target_folder folder p <> [] -> is_noboundary (p_shape p) = false ->
-  spec_C01 w folder rs p clk.
+  WInv w -> WFresh w -> target_folder folder p <> [] -> spec_C01 w folder rs p clk.
 Proof. exact c01_holds_when_fresh_l. Qed.
 Print Assumptions c01_holds_when_fresh.
 
@@ -131,14 +131,18 @@ Example c01_repaired_stale_uidnext :
   snd (fst (lmtp_data (wrun h_gap (w0 [])) INBOX [U1; U1] p_plain clk0)) = [R250; R250].
 Proof. vm_compute. repeat split. Qed.
 
-(** ---- refuted parts ------------------------------------------------------------- *)
+(** a root multipart/* without boundary is stored as one part and reconstructs
+    (was: zero part rows, 250, empty BODY[] — class noboundary_unfetchable) *)
+Example c01_repaired_noboundary :
+  classify (w0 []) INBOX [U1] p_nob clk0 = None /\
+  snd (fst (lmtp_data (w0 []) INBOX [U1] p_nob clk0)) = [R250] /\
+  (forall u, get (fst (fst (lmtp_data (w0 []) INBOX [U1] p_nob clk0))) KU1 = Some u -> reconstructs u 1 = true).
+Proof.
+  split; [vm_compute; reflexivity|]. split; [vm_compute; reflexivity|].
+  intros u H. vm_compute in H. injection H as <-. vm_compute. reflexivity.
+Qed.
 
-(** raven's current code: root multipart/* without boundary: 250, linked, zero
-    part rows — BODY[] is empty *)
-Theorem c01_refuted_noboundary :
-  exists w folder rs p clk, classify w folder rs p clk = Some CNoBoundary /\ ~ spec_C01 w folder rs p clk.
-Proof. exact refuted_noboundary. Qed.
-Print Assumptions c01_refuted_noboundary.
+(** ---- refuted parts ------------------------------------------------------------- *)
 
 (** LATENT in raven's current code (result map keyed by recipient string, reply
     loop reading it): on a world whose INBOX has UIDNEXT behind an existing UID
